@@ -1047,6 +1047,12 @@ class Model:
                         pass
 
                     else:
+                        # If the two already are aliases with the opposite sign (both are
+                        # zero), adding this alias would corrupt the relation: keep the equation.
+                        opposite = alg_state.name() if negative_alias else "-" + alg_state.name()
+                        if opposite in self.alias_relation.aliases(other_state.name()):
+                            return False
+
                         # Eliminate alg_state by aliasing it to other_state
                         if negative_alias:
                             self.alias_relation.add(other_state.name(), "-" + alg_state.name())
